@@ -37,7 +37,15 @@ def classify_cluster(inp):
 
 
 def valid_cluster(inp):
-    return valid_qe(inp) and isinstance(inp.get("cluster"), list) and len(inp["cluster"]) >= 2
+    """the nodes' backend lists partition the backends of the dataset (a shrink must not drop a backend from one only)"""
+    if not (valid_qe(inp) and isinstance(inp.get("cluster"), list) and len(inp["cluster"]) >= 2):
+        return False
+    try:
+        assigned = [b for node in inp["cluster"] for b in (node or [])]
+        keys = [b["key"] for b in inp["ds"]["backends"]]
+        return sorted(assigned) == sorted(keys)
+    except (KeyError, TypeError):
+        return False
 
 
 PROP = Prop(
